@@ -16,7 +16,9 @@ from __future__ import annotations
 
 import functools
 import itertools
+import json
 import logging
+import zlib
 
 from antismash.common.secmet.features import Region
 from antismash.common.secmet.record import Record
@@ -667,9 +669,80 @@ def run_detection_glue(ctx, case):
         if bool(record.skip) != (not record.get_regions()):
             ctx.violate("record-skipped-exactly-without-regions",
                         sess.facts(skip=record.skip, regions=len(record.get_regions())), case)
+        numbers_shown_in_a_file(sess, record, case)
     finally:
         SESSION = None
     ctx.case(("glue", case), nontrivial=len(world["protoclusters"]) + len(world["subregions"]) >= 2)
+
+
+_AREA_KINDS = {"subregion": ("subregion_number", "get_subregions", "get_subregion"),
+               "protocluster": ("protocluster_number", "get_protoclusters", "get_protocluster"),
+               "cand_cluster": ("candidate_cluster_number", "get_candidate_clusters", "get_candidate_cluster"),
+               "region": ("region_number", "get_regions", "get_region")}
+
+
+def _identity(record, area):
+    kind = type(area).__name__
+    if kind == "SubRegion":
+        return [_s(area.location), area.label]
+    if kind in ("Protocluster", "SideloadedProtocluster"):
+        return [_s(area.location), _s(area.core_location), area.product]
+    if kind == "CandidateCluster":
+        return [_s(area.location), str(area.kind), [[_s(p.location), p.product] for p in area.protoclusters]]
+    return [_s(area.location), [_s(c.location) for c in area.candidate_clusters], [[_s(x.location), x.label] for x in area.subregions]]
+
+
+def numbers_shown_in_a_file(sess: Session, record, case) -> None:
+    """ the numbers are written on the features of a file, which lists its features in whatever order: each written
+        feature shows the number of the area it was written from, and in the record read from the file that number
+        still identifies that area """
+    ctx = sess.ctx
+    bio = record.to_biopython()
+    # the genes of these worlds carry placeholder translations that no file could hold: the areas are what is read
+    bio.features = [feature for feature in bio.features if feature.type != "CDS"]
+    written = {kind: {} for kind in _AREA_KINDS}
+    slots = [i for i, feature in enumerate(bio.features) if feature.type in _AREA_KINDS]
+    for i in slots:
+        feature = bio.features[i]
+        qualifier, _all, by_number = _AREA_KINDS[feature.type]
+        number = int(feature.qualifiers[qualifier][0])
+        original = getattr(record, by_number)(number)
+        ctx.count("op:number-written")
+        if _s(original.location) != _s(feature.location) or number in written[feature.type]:
+            ctx.violate("written-number-identifies-the-written-area",
+                        sess.facts(kind=feature.type, number=number, written=_s(feature.location), area=_s(original.location)), case)
+            return
+        written[feature.type][number] = _identity(record, original)
+    listing = ("reversed", "as-written", "rotated")[zlib.crc32(json.dumps(case, sort_keys=True).encode()) % 3]
+    areas = [bio.features[i] for i in slots]
+    if listing == "reversed":
+        areas.reverse()
+    elif listing == "rotated":
+        areas = areas[len(areas) // 2:] + areas[:len(areas) // 2]
+    for i, feature in zip(slots, areas):
+        bio.features[i] = feature
+    ctx.count("file-listing:" + listing)
+    try:
+        reread = Record.from_biopython(bio, taxon="bacteria")
+    except Exception as err:  # pylint: disable=broad-except
+        ctx.violate("record-reads-back-from-its-own-features", sess.facts(listing=listing, **core.crash_facts(err)), case)
+        return
+    for kind, (_qualifier, everything, by_number) in _AREA_KINDS.items():
+        if len(getattr(reread, everything)()) != len(written[kind]):
+            ctx.violate("read-areas-are-the-written-areas",
+                        sess.facts(kind=kind, listing=listing, written=len(written[kind]), read=len(getattr(reread, everything)())), case)
+            continue
+        twins = len({json.dumps(v[:1]) for v in written[kind].values()}) < len(written[kind])
+        for number, identity in sorted(written[kind].items()):
+            ctx.count("op:number-read-back")
+            if twins:
+                ctx.count("op:number-read-back-among-identical-coordinates")
+            got = _identity(reread, getattr(reread, by_number)(number))
+            if got != identity:
+                ctx.violate("number-shown-identifies-the-same-area-after-reading",
+                            sess.facts(kind=kind, listing=listing, number=number, written=identity, read=got,
+                                       identical_coordinates=twins), case)
+                break
 
 
 def run(ctx):
